@@ -61,7 +61,8 @@ func NewStackingContext(box Box, childContexts []StackingContext, blocks []bo.Bo
 	// by z-index, then tree order.
 
 	zIndex := box.Box().Style.GetZIndex()
-	if zIndex.String == "auto" {
+	if zIndex.String == "auto" || (box.Box().Style.GetPosition().String == "static" && !box.Box().IsFlexItem && !box.Box().IsGridItem) {
+		// z-index applies to positioned boxes (and flex / grid items) only
 		self.zIndex = 0
 	} else {
 		self.zIndex = zIndex.Int
